@@ -26,6 +26,15 @@ CHECKS = {
  "C06": ("real _range_of_solutions / range_of_solutions / _spaced_solutions with a CONCRETE catalogue of capture matrices and symbolic target, bounds and baseline: every path of the "
          "candidate enumeration explored; z3 decides soundness for every reproducing intensity vector, attainment of each end (quantified linear arithmetic), spaced solutions in "
          "bounds and reproducing, out-of-gamut behaviour; perturbed-comparison layer for rounding sensitivity (known finding F10)", "4 C06"),
+ "C14": ("histories of registration calls and queries (all single steps, pairs over the mutator alphabet, queries sandwiched with mutators; every argument a fresh symbol) applied to a "
+         "real estimator; z3 proves term-wise equality of all observables (captures, clouds/targets handed to the membership oracle, bound test, the least-squares problem handed "
+         "to the solver, prediction) with a fresh estimator built from the registered values of a stateless reference model; caller arrays compared element-wise before/after every call", "4 C14"),
+ "C15": ("twin runs related by symbolic unit changes s, c > 0: the cloud and targets handed to the membership oracle scale by exactly c (verdicts equal by the contract with the same "
+         "weights), s*(fit in new units) is an optimum of the original problem and predictions scale by c; range / spaced-solution twins on the concrete catalogue for an (s,c) grid "
+         "spanning 1e-4..1e4: ends and spaced solutions scale by exactly 1/s on every path", "4 C15"),
+ "C19": ("real equalize_domains / estimator.capture(domain=) on symbolic monotone domains and arrays with an interp1d contract stub: common grid = [max of minima, min of maxima], "
+         "uniform, point count = round(overlap / coarsest mean step)+1, each array interpolated from its own domain along its own axis (compared with the harness's own "
+         "interpolation), identical domains untouched, rejection only without sufficient overlap, stack/concatenate, capture on the common grid", "4 C19"),
  "C05": ("exhaustive grid of (n_samples, batch_size) incl. non-dividing, larger-than-n and 'full' for the gaussian, poisson and excitation models: the real batching code "
          "(padding, block-diagonal stacking, scatter) runs on symbolic contents through the cvxpy shim; z3 decides per row: no exception, the result row is its own block of the "
          "stacked solution, it is optimal for its own target/weights alone (separability instance of the stacked contract), and the stacked problem is feasible whenever each row's is", "4 C05"),
